@@ -845,6 +845,7 @@ class FnTr:
         g = e.generators[0]
         # element type: translate the element once in a scratch translator state to learn its type
         save = self.tmp
+        n_aux = len(self.aux)                 # loop bodies hoisted by the scratch translations below are dropped again (they are never referenced)
         it_s, it_c, it_t = self.tr(g.iter)
         elem_t = self.elem_type(it_t)
         if isinstance(g.target, ast.Name) and self.vars.get(g.target.id, elem_t) != elem_t:
@@ -865,6 +866,7 @@ class FnTr:
             _, _, vt = self.tr(e.value)
             tmp_t = ("Dict", kt, vt)
         self.tmp = save
+        del self.aux[n_aux:]
         tmp = self.fresh(tmp_t, "c")
         # build the loop as statements
         init = ast.parse(f"{tmp} = []" if kind == "list" else f"{tmp} = {{}}").body[0]
